@@ -22,6 +22,7 @@ import (
 	"sort"
 	"strings"
 	"sync"
+	"sync/atomic"
 
 	clog "github.com/33cn/chain33/common/log"
 	drivers "github.com/33cn/chain33/system/store"
@@ -100,8 +101,51 @@ func verify(root []byte, k, v []byte, proof []byte) (ok bool, perr string) {
 	perr = vx.Catch(func() {
 		ok = mavldb.VerifyKVPairProof(nil, root, &types.KeyValue{Key: k, Value: v}, proof)
 	})
-	run.Count("evaluations", 1)
+	atomic.AddInt64(&evals, 1)
 	return
+}
+
+var (
+	evals     int64
+	famMu     sync.RWMutex
+	famCount  = map[string]*int64{}
+	seenLocal sync.Map
+)
+
+// tally counts one evaluation of a family (flushed into the run's counters at the end).
+func tally(class string) {
+	if i := strings.IndexByte(class, ':'); i > 0 && strings.HasPrefix(class, "proof:") {
+		class = "proof-field"
+	} else if strings.HasPrefix(class, "bytes-len") {
+		class = "short-bytes"
+	} else if i := strings.IndexByte(class, '+'); i > 0 {
+		class = class[:i]
+	}
+	famMu.RLock()
+	c := famCount[class]
+	famMu.RUnlock()
+	if c == nil {
+		famMu.Lock()
+		if c = famCount[class]; c == nil {
+			c = new(int64)
+			famCount[class] = c
+		}
+		famMu.Unlock()
+	}
+	atomic.AddInt64(c, 1)
+}
+
+func outcome(key string) {
+	if _, loaded := seenLocal.LoadOrStore(key, true); !loaded {
+		run.Seen("outcomes", key)
+	}
+}
+
+func flushCounts() {
+	run.Count("evaluations", atomic.LoadInt64(&evals))
+	for k, c := range famCount {
+		run.Count("evaluations_"+k, atomic.LoadInt64(c))
+	}
 }
 
 // eff is the hashed content of a Merkle path: per inner node height, size, the side the child sits
@@ -127,11 +171,12 @@ func eff(p *types.MAVLProof) string {
 // the honest one; everything else must be rejected; nothing may panic.
 func judge(class string, claimTrue bool, genuine string, root, k, v, proofBytes []byte) string {
 	ok, perr := verify(root, k, v, proofBytes)
+	tally(class)
 	if perr != "" {
 		return "verify-panics:" + class + "| " + perr
 	}
 	if !ok {
-		run.Seen("outcomes", class+":rejected")
+		outcome(class + ":rejected")
 		return ""
 	}
 	var p types.MAVLProof
@@ -144,7 +189,7 @@ func judge(class string, claimTrue bool, genuine string, root, k, v, proofBytes 
 	if eff(&p) != genuine {
 		return "accepts-altered-path:" + class + "| verifier accepted a proof whose hashed path differs from the honest one"
 	}
-	run.Seen("outcomes", class+":accepted-equivalent")
+	outcome(class + ":accepted-equivalent")
 	return ""
 }
 
@@ -159,6 +204,7 @@ func clone(p *types.MAVLProof) *types.MAVLProof {
 type pmut struct {
 	class string
 	b     []byte
+	twin  bool // also evaluated against a false claim
 }
 
 // proofMutations lists single-field changes of a decoded proof. heavy: all 256 bit positions of
@@ -167,7 +213,7 @@ func proofMutations(p *types.MAVLProof, heavy bool) (out []pmut) {
 	add := func(class string, f func(q *types.MAVLProof)) {
 		q := clone(p)
 		f(q)
-		out = append(out, pmut{class, types.Encode(q)})
+		out = append(out, pmut{class, types.Encode(q), true})
 	}
 	for i := range p.InnerNodes {
 		i := i
@@ -193,6 +239,9 @@ func proofMutations(p *types.MAVLProof, heavy bool) (out []pmut) {
 		for _, b := range bits {
 			b := b
 			add("hash-bitflip", func(q *types.MAVLProof) { h := *sib(q); h[n-32+b/8] ^= 1 << (b % 8) })
+			if b != 0 && b != 7 && b != 128 && b != 255 {
+				out[len(out)-1].twin = false // the false-claim twin runs for the four positions every proof gets
+			}
 		}
 		for b := 0; b < (n-32)*8; b += 5 { // height-prefix bytes are not hashed: no-crash / equivalent class
 			b := b
@@ -259,7 +308,8 @@ func (s *sys) oracle(fullSubst *int32Budget) string {
 				}
 				return fmt.Sprintf("honest-proof-rejected%s| proof of %q=%q at root #%d of %d does not verify", where, k, v, i+1, len(s.roots))
 			}
-			run.Seen("outcomes", fmt.Sprintf("honest:accepted:nodes%d", proofNodes(proof)))
+			tally("honest")
+			outcome(fmt.Sprintf("honest:accepted:nodes%d", proofNodes(proof)))
 		}
 		for _, k := range otherKeys { // absent keys: no proof is promised, but asking must not crash
 			if _, present := s.models[i][k]; !present {
@@ -345,6 +395,9 @@ func (s *sys) oracle(fullSubst *int32Budget) string {
 			if f := judge("proof:"+m.class, true, gen, root, K, V, m.b); f != "" {
 				return f + fmt.Sprintf(" (key %q)", k)
 			}
+			if !m.twin {
+				continue
+			}
 			if f := judge("proof:"+m.class+"+other-value", false, gen, root, K, []byte(flipVal(v)), m.b); f != "" {
 				return f + fmt.Sprintf(" (key %q)", k)
 			}
@@ -378,6 +431,9 @@ func (s *sys) oracle(fullSubst *int32Budget) string {
 					x[pos] = c
 					if f := judge("substitution", true, gen, root, K, V, x); f != "" {
 						return f + fmt.Sprintf(" (byte %d of %d: %#x -> %#x)", pos, len(proof), proof[pos], c)
+					}
+					if !all {
+						continue // the false-claim twin runs for the proofs that get all 255 values
 					}
 					if f := judge("substitution+other-value", false, gen, root, K, []byte(flipVal(v)), x); f != "" {
 						return f
@@ -441,10 +497,10 @@ func (h harness) seq(r *vx.Run, budget *int32Budget) *vx.Seq[*sys] {
 	for i := 0; i+1 < len(h.keys); i++ {
 		ops = append(ops, []write{{h.keys[i+1], "v1"}, {h.keys[i], "v2"}})
 	}
-	workers := 6
-	if h.cfg.Prune {
-		workers = 1 // pruning bookkeeping reads/writes the process-global maxBlockHeight
-	}
+	// one worker: the order of visiting (and with it which history evaluates a once-only family)
+	// is then fixed, so the counters are reproducible; the prune configuration needs it anyway
+	// (its bookkeeping reads/writes the process-global maxBlockHeight)
+	workers := 1
 	q := &vx.Seq[*sys]{Run: r, Name: h.name, NumOps: len(ops), MaxDepth: h.depth, Workers: workers}
 	q.New = func() *sys {
 		if h.cfg.Prune {
@@ -562,7 +618,7 @@ func main() {
 		{"prefix", mvx.Cfg{Name: "prefix", Prefix: true}, k5, r.Pick(3, 4)},
 		{"prune", prune, k4, r.Pick(3, 4)},
 	}
-	budget := &int32Budget{n: r.Pick(6, 1<<20)} // quick: proofs whose hash starts with a byte < 6 (about 1 in 40); thorough: all
+	budget := &int32Budget{n: r.Pick(3, 1<<20)} // quick: proofs whose hash starts with a byte < 3 (about 1 in 85); thorough: all
 
 	if raw, ok := r.Replaying(); ok {
 		var c struct {
@@ -598,6 +654,7 @@ func main() {
 		}
 		h.seq(r, budget).Explore()
 	}
+	flushCounts()
 	if r.Counter("violating_cases") == 0 {
 		r.Floors["outcomes"] = 30
 		r.Floors["states"] = 300
